@@ -552,6 +552,77 @@ func c23SortRule(r *Run, R string, fi *FuncInfo, info *types.Info) bool {
 	if len(colls) == 0 {
 		return false
 	}
+	// two-phase collection: a range over a still unsorted collected slice whose body only filters, records
+	// set membership and appends to another slice derives a new collection (which must be sorted in turn);
+	// such a range is not an order-sensitive use of the first slice
+	derived := map[*ast.RangeStmt]bool{}
+	for k := 0; k < len(colls); k++ {
+		cc := colls[k]
+		ast.Inspect(fi.Decl.Body, func(n ast.Node) bool {
+			rs, ok := n.(*ast.RangeStmt)
+			if !ok || rs == cc.rng || c03ObjOf(info, rs.X) != cc.slice || derived[rs] {
+				return true
+			}
+			locals := map[types.Object]bool{}
+			for _, e := range []ast.Expr{rs.Key, rs.Value} {
+				if e != nil {
+					if o := c03ObjOf(info, e); o != nil {
+						locals[o] = true
+					}
+				}
+			}
+			benign := true
+			dests := map[types.Object][]*ast.AssignStmt{}
+			ast.Inspect(rs.Body, func(m ast.Node) bool {
+				switch x := m.(type) {
+				case *ast.ReturnStmt, *ast.GoStmt, *ast.DeferStmt, *ast.SendStmt, *ast.FuncLit, *ast.IncDecStmt:
+					benign = false
+				case *ast.CallExpr:
+					if isBuiltinCall(info, x, "append") || isBuiltinCall(info, x, "len") || isBuiltinCall(info, x, "cap") {
+						return true
+					}
+					if f := callee(info, x); f != nil && f.Pkg() != nil && (f.Pkg().Path() == "strings" || f.Pkg().Path() == "bytes" || f.Pkg().Path() == "path") {
+						return true
+					}
+					benign = false
+				case *ast.AssignStmt:
+					for i, l := range x.Lhs {
+						if ix, ok := ast.Unparen(l).(*ast.IndexExpr); ok {
+							if _, isMap := info.TypeOf(ix.X).Underlying().(*types.Map); isMap {
+								continue
+							}
+							benign = false
+							continue
+						}
+						lo := c03ObjOf(info, l)
+						if lo == nil {
+							benign = false
+							continue
+						}
+						if x.Tok == token.DEFINE || locals[lo] {
+							locals[lo] = true
+							continue
+						}
+						if len(x.Lhs) == len(x.Rhs) {
+							if call, ok := ast.Unparen(x.Rhs[i]).(*ast.CallExpr); ok && isBuiltinCall(info, call, "append") && len(call.Args) >= 1 && c03ObjOf(info, call.Args[0]) == lo {
+								dests[lo] = append(dests[lo], x)
+								continue
+							}
+						}
+						benign = false
+					}
+				}
+				return true
+			})
+			if benign && len(dests) > 0 {
+				derived[rs] = true
+				for o, aps := range dests {
+					colls = append(colls, &coll{rng: rs, slice: o, appends: aps})
+				}
+			}
+			return true
+		})
+	}
 	for _, cc := range colls {
 		s := cc.slice
 		isSort := func(n ast.Node) bool {
@@ -617,7 +688,7 @@ func c23SortRule(r *Run, R string, fi *FuncInfo, info *types.Info) bool {
 					uses = append(uses, use{x, "index"})
 				}
 			case *ast.RangeStmt:
-				if c03ObjOf(info, x.X) == s {
+				if c03ObjOf(info, x.X) == s && !derived[x] {
 					uses = append(uses, use{x.X, "range"})
 				}
 			case *ast.ReturnStmt:
@@ -638,6 +709,16 @@ func c23SortRule(r *Run, R string, fi *FuncInfo, info *types.Info) bool {
 			}
 			return true
 		})
+		hasDerived := false
+		for rs := range derived {
+			if c03ObjOf(info, rs.X) == s {
+				hasDerived = true
+			}
+		}
+		if len(uses) == 0 && hasDerived {
+			r.Ob(R, fi.Name()+"#derived:"+s.Name(), cc.rng.Pos()).OK("the collected slice %s is only filtered into another collection, which is checked in its place", s.Name())
+			continue
+		}
 		if len(uses) == 0 {
 			r.Ob(R, fi.Name()+"#uses", cc.rng.Pos()).Unknown("no order-sensitive use of the collected slice found: shape not understood")
 			continue
